@@ -165,11 +165,6 @@ func (x *Exec) callFunc(st *State, fr *Frame, fn *ssa.Function, args []*Val, bin
 		x.callByContract(st, fr, c, fn.Signature, fn, args, pos, cont)
 		return
 	}
-	top := st.frames[0]
-	if top.con != nil && top.con.has("lemma") && inModule(fn) && fn.Parent() == nil {
-		x.aborted = "lemma " + x.curFn + " calls " + name + " which has no contract"
-		return
-	}
 	if fn.Blocks != nil && inModule(fn) && fr.depth < maxInlineDepth {
 		// recursion guard
 		for _, f := range st.frames {
